@@ -179,6 +179,36 @@ func genCase(t *rapid.T) Case {
 		set(j, rapid.SampledFrom([]int64{1, 77777, 20000000}).Draw(t, "wl_fee2"), 2)
 		use(j+1, 3)
 	}
+	// Faulted-setter storyline (aimed at native caches that are updated in place): a committee setter changes a cached
+	// value in a transaction that HALTs, a second transaction of the same block (or a later one) sets another value
+	// and then throws. The running node must go on with the first value, like a node restarted afterwards.
+	if n >= 3 && rapid.IntRange(0, 3).Draw(t, "fsstory") == 0 {
+		nonce := rapid.Uint32().Draw(t, "fss_nonce")
+		i := rapid.IntRange(0, n-2).Draw(t, "fss_at")
+		payer := 4 + rapid.IntRange(0, 1).Draw(t, "fss_payer")
+		type setter struct {
+			kind, s string
+			vals    []int64
+		}
+		st := rapid.SampledFrom([]setter{
+			{"neo_set", "setGasPerBlock", []int64{1_0000_0000, 3_0000_0000, 7_0000_0000, 10_0000_0000}},
+			{"neo_set", "setRegisterPrice", []int64{500_0000_0000, 900_0000_0000, 1200_0000_0000}},
+			{"policy", "setFeePerByte", []int64{500, 2000, 3000}},
+			{"policy", "setStoragePrice", []int64{50000, 200000, 300000}},
+			{"policy", "setExecFeeFactor", []int64{20, 40, 50}},
+			{"native_set", "Oracle.setPrice", []int64{2000_0000, 7000_0000, 1_0000_0000}},
+			{"native_set", "Notary.setMaxNotValidBeforeDelta", []int64{30, 60, 100}},
+		}).Draw(t, "fss_setter")
+		v1 := rapid.SampledFrom(st.vals).Draw(t, "fss_v1")
+		v2 := rapid.SampledFrom(st.vals).Draw(t, "fss_v2")
+		same := rapid.IntRange(0, 2).Draw(t, "fss_sameblock") != 0
+		c.Blocks[i].Txs = append(c.Blocks[i].Txs, ck.Action{Kind: st.kind, S: st.s, From: payer, N: v1, Nonce: nonce})
+		j := i
+		if !same {
+			j = min(i+1, n-1)
+		}
+		c.Blocks[j].Txs = append(c.Blocks[j].Txs, ck.Action{Kind: st.kind, S: st.s, From: payer, N: v2, Nonce: nonce + 1, Fail: true})
+	}
 	// Oracle storyline (requests pending across flushes and restarts, answered later; the designated oracle nodes may
 	// change in between; the callback stores the result, or throws after doing so).
 	if n >= 3 && rapid.IntRange(0, 3).Draw(t, "orstory") == 0 {
